@@ -9,10 +9,13 @@
    that copy only ever adds: whatever it returns, every entry that existed - the source included - is still
    there under the same path with the same kind, link target and owner, and the same mode unless a chmod
    option was given, directories list at least what they listed, no file loses its content, cwd and root stay.
-   That the destination receives a copy of every source entry is not yet a theorem. *)
+   Copy of a regular file to a fresh path in an existing directory is proved completely (Memfs/CopyFile.v):
+   it succeeds, the destination is a regular file with the source's bytes, owner and mode (the requested
+   mode when a chmod option selects files), its directory lists it, nothing else changes. That the
+   destination receives a copy of every entry of a source DIRECTORY is not yet a theorem. *)
 From stdpp Require Import gmap.
 From Coq Require Import NArith.
-From RV Require Import Base.Str Path.Helpers Path.Expand Memfs.State Memfs.Ops Memfs.Walk Memfs.WalkOps Memfs.Step Memfs.ContentFacts Memfs.MoveFacts Memfs.Wf Memfs.WfMove Memfs.CopyFacts.
+From RV Require Import Base.Str Path.Helpers Path.Expand Memfs.State Memfs.Ops Memfs.Walk Memfs.WalkOps Memfs.Step Memfs.ContentFacts Memfs.MoveFacts Memfs.Wf Memfs.WfMove Memfs.CopyFacts Memfs.CopyFile.
 
 Theorem C09_move_validation_frame : forall env m s d e m',
   move_validation env m s d = inr e -> move_op env m s d = Done (m', inr e) -> m' = m.
@@ -82,3 +85,16 @@ Theorem C09_copy_keeps_everything : forall env m s d o r, copy_op env m s d o = 
   grows (match cp_mode o with None => true | Some _ => false end) m r.1.
 Proof. exact copy_grows. Qed.
 Print Assumptions C09_copy_keeps_everything.
+
+(* copy of a regular file to a fresh path in an existing directory *)
+Theorem C09_copy_file_fresh : forall env m s d o sp dp db ddir r pd bytes,
+  WF m -> resolve env m s = inl sp -> resolve env m d = inl dp -> sp <> dp ->
+  m_ents m !! sp = Some r -> e_file r = true -> e_dir r = false -> e_link r = false -> m_data m !! sp = Some bytes ->
+  dp = db :: ddir -> m_ents m !! dp = None -> m_ents m !! ddir = Some pd -> real_dir pd ->
+  exists m', copy_op env m s d o = Done (m', inl tt) /\
+    m_ents m' !! dp = Some (copied_entry o r dp) /\ m_data m' !! dp = Some bytes /\
+    m_ents m' !! ddir = Some (entry_add pd db).1 /\
+    (forall q, q <> dp -> q <> ddir -> m_ents m' !! q = m_ents m !! q) /\
+    (forall q, q <> dp -> m_data m' !! q = m_data m !! q) /\ m_cwd m' = m_cwd m /\ m_root m' = m_root m.
+Proof. exact copy_file_fresh. Qed.
+Print Assumptions C09_copy_file_fresh.
